@@ -3,6 +3,7 @@ import S2T.Lemmas.ZipBombFloat
 import S2T.Gen.ZipBomb
 import S2T.Gen.ZipOpenSites
 import S2T.Props.C11_Src
+import S2T.Props.C11_Fields
 /-!
 # C11 — ZIP-container bomb guard decides exactly and runs before any read
 
@@ -79,6 +80,40 @@ theorem C11_exact (lim : Limits) (es : List Entry) :
     rw [hv] at h
     have hb : Bomb lim es := Classical.not_not.mp (fun hn => absurd (h.mpr hn) (by simp))
     simp [hb]
+
+/-! ## Directory entry = the NAME ends with '/'; no other field of a record is consulted
+(`Props/C11_Fields.lean`: `dir_is_trailing_slash`, `is_directory_src`, `C11_other_fields_ignored(_src)`) -/
+
+/-- **C11 (a file member counts whatever its attributes say).** A record whose name does not end with
+    '/' and which violates a per-entry limit makes every container that holds it a bomb — for every value
+    of the external attributes (MS-DOS directory bit 0x10, unix `S_IFDIR` mode), creating system, flag
+    bits, compression method, extra field, CRC, date and comment. -/
+theorem C11_file_counted_whatever_attrs (lim : Limits) (pre post : List CdRecord) (r : CdRecord)
+    (hn : nameIsDir r.filename = false) (hb : EntryBad lim (Entry.ofRecord r)) :
+    ∃ reason, validate lim (some ((pre ++ r :: post).map Entry.ofRecord)) = .error reason := by
+  rw [C11_exact]
+  right; left
+  exact ⟨Entry.ofRecord r, by simp, hn, hb⟩
+
+/-- … and its size counts towards the totals: two containers that differ only in fields other than
+    (file_size, compress_size, trailing slash of the name) are both bombs or both not. -/
+theorem C11_bomb_depends_on_core_only (lim : Limits) (rs rs' : List CdRecord)
+    (h : rs.map S2T.C11.Fields.core = rs'.map S2T.C11.Fields.core) :
+    Bomb lim (rs.map Entry.ofRecord) ↔ Bomb lim (rs'.map Entry.ofRecord) := by
+  rw [← C11_exact, ← C11_exact, S2T.C11.Fields.C11_other_fields_ignored lim rs rs' h]
+
+/-- attributes of `ZipInfo` / `ZipFile` objects the guard module may consult -/
+def allowedZipAttrs : List String := ["infolist", "is_dir", "filename", "file_size", "compress_size", "close"]
+
+/-- **generated from the AST of the current `zip_bomb.py`**: no function of the guard module touches any
+    other attribute of a `ZipInfo` / `ZipFile` (external_attr, create_system, flag_bits, compress_type,
+    extra, CRC, date_time, comment, namelist, NameToInfo, …), by attribute access or `getattr`/`hasattr`. -/
+theorem C11_fields_consulted :
+    S2T.Gen.ZipBomb.zipAttrsConsulted.all (fun p => allowedZipAttrs.contains p.2) = true := by decide
+
+example : nameIsDir S2T.C11.Fields.dosDirFile.filename = false
+    ∧ EntryBad ⟨5, 10000, 1000, ⟨200, 1⟩, ⟨500, 1⟩⟩ (Entry.ofRecord S2T.C11.Fields.dosDirFile) := by
+  refine ⟨by decide, Or.inl (by decide)⟩
 
 /-- a container whose central directory cannot be listed is rejected with the same error -/
 theorem C11_inspect_failure (lim : Limits) : validate lim none = .error .inspectFailed := rfl
